@@ -74,7 +74,22 @@ FUNCS = {"float": float, "setattr": _setattr, "str": str, "dict": dict, "os.path
          "accumulate": lambda *a, **k: list(itertools.accumulate(*a, **k)), "itertools.accumulate": lambda *a, **k: list(itertools.accumulate(*a, **k)),
          "bisect_right": __import__("bisect").bisect_right, "bisect_left": __import__("bisect").bisect_left,
          "bisect.bisect_right": __import__("bisect").bisect_right, "bisect.bisect_left": __import__("bisect").bisect_left,
-         "bisect": __import__("bisect").bisect_right, "bisect.bisect": __import__("bisect").bisect_right}
+         "bisect": __import__("bisect").bisect_right, "bisect.bisect": __import__("bisect").bisect_right,
+         "repeat": lambda *a: list(itertools.repeat(*a)) if len(a) == 2 else itertools.repeat(*a),
+         "count": lambda *a: itertools.count(*a), "itertools.count": lambda *a: itertools.count(*a),
+         "starmap": lambda f, it: [f(*x) for x in it], "itertools.starmap": lambda f, it: [f(*x) for x in it],
+         "takewhile": lambda f, it: list(itertools.takewhile(f, _finite(it))), "itertools.takewhile": lambda f, it: list(itertools.takewhile(f, _finite(it))),
+         "dropwhile": lambda f, it: list(itertools.dropwhile(f, _finite(it))), "itertools.dropwhile": lambda f, it: list(itertools.dropwhile(f, _finite(it))),
+         "zip_longest": lambda *a, **k: list(itertools.zip_longest(*[_finite(x) for x in a], **k)),
+         "itertools.zip_longest": lambda *a, **k: list(itertools.zip_longest(*[_finite(x) for x in a], **k)),
+         "pairwise": lambda it: list(itertools.pairwise(_finite(it))), "itertools.pairwise": lambda it: list(itertools.pairwise(_finite(it)))}
+FUNCS["itertools.repeat"] = FUNCS["repeat"]
+
+
+def _finite(it):
+    if isinstance(it, (itertools.repeat, itertools.count)):
+        raise Unknown("an endless iterator is consumed")
+    return it
 
 
 def _unk(what):
@@ -172,7 +187,8 @@ class _Chain(dict):
 
 def _safe_builtin(fn):
     """a built-in function that only computes on numbers / sequences (operator.sub held in a table, math.ceil ..)"""
-    return getattr(fn, "__module__", None) in ("_operator", "operator", "math") or any(fn is v for v in FUNCS.values())
+    return getattr(fn, "__module__", None) in ("_operator", "operator", "math") or any(fn is v for v in FUNCS.values()) or \
+        isinstance(getattr(fn, "__self__", None), (str, tuple, frozenset))
 
 
 _NODE_HOME = {}          # id(function definition) -> (program, module name), for every program the loader has built
@@ -455,6 +471,8 @@ class Folder:
                 raise Raised("AttributeError")
             if isinstance(v, (str, int, list, tuple, dict)) and not hasattr(v, e.attr):
                 raise Raised("AttributeError")
+            if isinstance(v, (str, tuple, frozenset)) and not e.attr.startswith("_"):
+                return getattr(v, e.attr)                   # a bound method of an immutable value (`fmt.format` handed to map)
             if type(v).__module__ != "builtins":
                 if hasattr(v, e.attr):
                     return getattr(v, e.attr)
@@ -639,6 +657,11 @@ class Folder:
                 raise Raised("StopIteration")
             if fn == "iter" and len(args) == 1 and isinstance(args[0], (list, tuple, range)):
                 return list(args[0])
+            if fn == "zip" and args and all(isinstance(a_, (itertools.repeat, itertools.count)) for a_ in args):
+                raise Unknown("zip of endless iterators only")
+            if fn in ("list", "tuple", "sorted", "set", "sum", "max", "min", "enumerate", "len", "any", "all", "frozenset", "dict", "reversed", "map", "filter") and \
+                    any(isinstance(a_, (itertools.repeat, itertools.count)) for a_ in args):
+                raise Unknown("an endless iterator is consumed")
             try:
                 v = FUNCS[fn](*args, **kw)
             except PYEXC as x:
@@ -889,6 +912,26 @@ class Folder:
             elif isinstance(s, ast.Assert):
                 if not self.ev(s.test):
                     raise Raised("AssertionError")
+            elif isinstance(s, ast.Delete):
+                for t in s.targets:
+                    if isinstance(t, ast.Name) and t.id in self.env:
+                        del self.env[t.id]
+                    elif isinstance(t, ast.Subscript):
+                        obj = self.ev(t.value)
+                        if not isinstance(obj, (list, dict)):
+                            raise Unknown("del on %s" % type(obj).__name__)
+                        if isinstance(t.slice, ast.Slice):
+                            lo = self.ev(t.slice.lower) if t.slice.lower is not None else None
+                            hi = self.ev(t.slice.upper) if t.slice.upper is not None else None
+                            st = self.ev(t.slice.step) if t.slice.step is not None else None
+                            del obj[lo:hi:st]
+                        else:
+                            try:
+                                del obj[self.ev(t.slice)]
+                            except (IndexError, KeyError) as x:
+                                raise Raised(type(x).__name__)
+                    else:
+                        raise Unknown("del %s" % type(t).__name__)
             else:
                 raise Unknown("statement %s" % type(s).__name__)
 
